@@ -122,6 +122,15 @@ def regenerate():
                          f"(* translator failed: {status['T-validity']} *)\n"
                          "Definition translator_failed : False := I.\n")
     try:
+        from translator import construct as T11
+        write_if_changed(os.path.join(GEN, "ConstructGen.v"), T11.translate(REPO))
+        status["T-construct"] = None
+    except Exception as e:
+        status["T-construct"] = f"{type(e).__name__}: {e}"
+        write_if_changed(os.path.join(GEN, "ConstructGen.v"),
+                         f"(* translator failed: {status['T-construct']} *)\n"
+                         "Definition translator_failed : False := I.\n")
+    try:
         from translator import tables as T34
         text = T34.translate(REPO)
         write_if_changed(os.path.join(GEN, "Tables.v"), text)
